@@ -669,3 +669,153 @@ M('C06', 'ignorecase-off', GR, "@@ignorecase :: True\n", "@@ignorecase :: False\
 MUTANTS.append({'prop': 'C06', 'name': 'twin-regenerated-unchanged', 'edits': [], 'twin': True, 'regen': True})
 M2('C06', 'twin-inline-disjunction', [(GR, "expression\n    =\n    | disjunction\n    | conjunction\n    ;\n\ndisjunction\n    =\n    | or\n    | conjunction\n    ;\n",
    "expression\n    =\n    | or\n    | conjunction\n    ;\n")], None, twin=True, regen=True)
+
+# ---------------------------------------------------------------------- C11
+M('C11', 'postings-payee-narration-swapped', QE,
+  "    \"\"\"The payee of the parent transaction for this posting.\"\"\"\n    return context.entry.payee",
+  "    \"\"\"The payee of the parent transaction for this posting.\"\"\"\n    return context.entry.narration", ('R-ACCESSPATH', 'PostingsTable.payee'))
+M('C11', 'cost-number-reads-units', QE,
+  "    cost = context.posting.cost\n    return cost.number if cost else None",
+  "    cost = context.posting.cost\n    return context.posting.units.number if cost else None", ('R-ACCESSPATH', 'PostingsTable.cost_number'))
+M('C11', 'weight-is-units', QE,
+  "    return convert.get_weight(context.posting)", "    return convert.get_units(context.posting)", ('R-ACCESSPATH', 'PostingsTable.weight'))
+M('C11', 'position-without-cost', QE,
+  "    return position.Position(posting.units, posting.cost)", "    return position.Position(posting.units, None)", ('R-ACCESSPATH', 'PostingsTable.position'))
+M('C11', 'other-accounts-includes-own', QE,
+  "    return sorted({posting.account for posting in context.entry.postings if posting is not context.posting})",
+  "    return sorted({posting.account for posting in context.entry.postings})", ('R-ACCESSPATH', 'PostingsTable.other_accounts'))
+M('C11', 'month-returns-day', QE,
+  "    \"\"\"The year of the date month of the directive.\"\"\"\n    return context.entry.date.month",
+  "    \"\"\"The year of the date month of the directive.\"\"\"\n    return context.entry.date.day", ('R-ACCESSPATH', 'EntriesTable.month'))
+M('C11', 'posting-lineno-from-entry', QE,
+  "    if meta is None:\n        return None\n    return meta[\"lineno\"]", "    if meta is None:\n        return None\n    return context.entry.meta[\"lineno\"]",
+  ('R-ACCESSPATH', 'PostingsTable.lineno'))
+M('C11', 'postings-skip-flagged', QE,
+  "                for posting in entry.postings:\n                    context.rowid += 1",
+  "                for posting in entry.postings:\n                    if posting.flag == '!':\n                        continue\n                    context.rowid += 1",
+  ('R-ROWGEN', 'PostingsTable.__iter__'))
+M('C11', 'entries-only-transactions', QE,
+  "        for entry in entries:\n            context.entry = entry\n            context.rowid += 1\n            yield context",
+  "        for entry in entries:\n            if not isinstance(entry, data.Transaction):\n                continue\n            context.entry = entry\n            context.rowid += 1\n            yield context",
+  ('R-ROWGEN', 'EntriesTable.__iter__'))
+M('C11', 'typed-table-yields-all', SB,
+  "        for entry in self.entries:\n            if isinstance(entry, datatype):\n                yield entry",
+  "        for entry in self.entries:\n            yield entry", ('R-ROWGEN', 'Table.__iter__'))
+M('C11', 'notes-table-of-documents', SB,
+  "class NotesTable(Table):\n    name = 'notes'\n    datatype = data.Note", "class NotesTable(Table):\n    name = 'notes'\n    datatype = data.Document",
+  ('R-TABLEFIELDS', 'NotesTable'))
+M('C11', 'derived-column-reads-renamed-name', SB,
+  "        columns[colname] = GetAttrColumn(name, dtype)", "        columns[colname] = GetAttrColumn(colname, dtype)", ('R-TABLEFIELDS', '_typed_namedtuple_to_columns'))
+M('C11', 'accounts-close-reads-open', SB,
+  "        'close': GetItemColumn(2, Close),", "        'close': GetItemColumn(1, Close),", ('R-TABLEFIELDS', 'AccountsTable'))
+M('C11', 'close-date-uses-open-entry', QE,
+  "    _, close_entry = context.tables['accounts'].accounts.get(acc, NONENONE)", "    close_entry, _ = context.tables['accounts'].accounts.get(acc, NONENONE)",
+  ('R-METAREWRITE', 'close_date'))
+M('C11', 'entry-meta-reads-posting-meta', CO,
+  "            node = ast.Function('getitem', [ast.Attribute(ast.Column('entry', parseinfo=node.parseinfo), 'meta'), key])\n            return self._compile(node)\n\n        # Replace ``any_meta",
+  "            node = ast.Function('getitem', [ast.Column('meta', parseinfo=node.parseinfo), key])\n            return self._compile(node)\n\n        # Replace ``any_meta",
+  ('R-METAREWRITE', 'entry_meta'))
+M('C11', 'entries-tags-without-isinstance', QE,
+  "    \"\"\"The set of tags of the transaction.\"\"\"\n    if not isinstance(context.entry, data.Transaction):\n        return None\n", "    \"\"\"The set of tags of the transaction.\"\"\"\n",
+  ('R-TYPESAFE', 'column:EntriesTable.tags'))
+T('C11', 'twin-accessor-through-local', QE,
+  "    \"\"\"The payee of the parent transaction for this posting.\"\"\"\n    return context.entry.payee",
+  "    \"\"\"The payee of the parent transaction for this posting.\"\"\"\n    txn = context.entry\n    return txn.payee")
+
+# ---------------------------------------------------------------------- C13
+R('C13', 'regress-D9-open-close-bool', 'c4835a7-FROM-OPEN-ON--date--CLOSE-without-a-date-no-longer.diff', ('R-GUARDSAFE', '_compile_from'))
+M('C13', 'clear-before-close', QE,
+  "        # Process the CLOSE clause.\n        if self.close is not None:\n            if isinstance(self.close, datetime.date):\n                entries, index = summarize.close_opt(entries, self.close, options)\n            elif self.close is True:\n                entries, index = summarize.close_opt(entries, None, options)\n\n        # Process the CLEAR clause.\n        if self.clear is not None:\n            entries, index = summarize.clear_opt(entries, None, options)\n",
+  "        # Process the CLEAR clause.\n        if self.clear is not None:\n            entries, index = summarize.clear_opt(entries, None, options)\n\n        # Process the CLOSE clause.\n        if self.close is not None:\n            if isinstance(self.close, datetime.date):\n                entries, index = summarize.close_opt(entries, self.close, options)\n            elif self.close is True:\n                entries, index = summarize.close_opt(entries, None, options)\n",
+  ('R-CALLORDER', 'BeanTable.prepare'))
+M('C13', 'close-applied-to-original-entries', QE,
+  "                entries, index = summarize.close_opt(entries, self.close, options)", "                entries, index = summarize.close_opt(self.entries, self.close, options)",
+  ('R-CALLORDER', 'BeanTable.prepare'))
+M('C13', 'undated-close-ignored', QE,
+  "            elif self.close is True:\n                entries, index = summarize.close_opt(entries, None, options)\n", "", ('R-CALLORDER', 'BeanTable.prepare'))
+M('C13', 'dated-close-loses-date', QE,
+  "                entries, index = summarize.close_opt(entries, self.close, options)", "                entries, index = summarize.close_opt(entries, None, options)",
+  ('R-CALLORDER', 'BeanTable.prepare'))
+M('C13', 'open-close-order-guard-deleted', CO,
+  "            if node.open and isinstance(node.close, datetime.date) and node.open > node.close:\n                raise CompilationError('CLOSE date must follow OPEN date')\n",
+  "", ('R-GUARDS', 'open-close-order'))
+M('C13', 'default-close-overrides-explicit', SH,
+  "            isinstance(statement.from_clause, parser.ast.From) and\n            not statement.from_clause.close):", "            isinstance(statement.from_clause, parser.ast.From)):",
+  ('R-DEFAULTCLOSE', 'BQLShell.parse'))
+M('C13', 'run-forgets-query-date', SH,
+  "        self.execute(query.query_string, default_close_date=query.date)\n\n    def complete_run", "        self.execute(query.query_string)\n\n    def complete_run",
+  ('R-DEFAULTCLOSE', 'do_run'))
+M('C13', 'table-update-in-place', QE,
+  "        table = copy.copy(self)\n        for name, value in kwargs.items():\n            setattr(table, name, value)\n        return table",
+  "        for name, value in kwargs.items():\n            setattr(self, name, value)\n        return self", ('R-TABLECOPY', 'BeanTable.update'))
+T('C13', 'twin-hoist-options', QE,
+  "        entries = self.entries\n        options = self.options\n", "        options = self.options\n        entries = self.entries\n")
+
+# ---------------------------------------------------------------------- C14
+M('C14', 'balances-where-dropped', CO,
+  "                      balances.from_clause,\n                      balances.where_clause,", "                      balances.from_clause,\n                      None,",
+  ('R-FIELDFLOW', 'transform_balances'))
+M('C14', 'journal-from-dropped', CO,
+  "    return ast.Select(cooked_select.targets,\n                      journal.from_clause,", "    return ast.Select(cooked_select.targets,\n                      None,",
+  ('R-FIELDFLOW', 'transform_journal'))
+M('C14', 'balances-order-by-dropped', CO,
+  "                      cooked_select.group_by,\n                      cooked_select.order_by,", "                      cooked_select.group_by,\n                      None,",
+  ('R-FIELDFLOW', 'transform_balances'))
+M('C14', 'journal-summary-func-ignored', CO,
+  "               summary_func=journal.summary_func or ''))", "               summary_func=''))", ('R-FIELDFLOW', 'transform_journal'))
+M('C14', 'print-collects-rows-not-entries', QX,
+  "            entries.append(row.entry)", "            entries.append(row)", ('R-PRINTFILTER', 'execute_print'))
+M('C14', 'print-filter-inverted', QX,
+  "        if expr is None or expr(row):\n            entries.append(row.entry)", "        if expr is not None and expr(row):\n            entries.append(row.entry)",
+  ('R-PRINTFILTER', 'execute_print'))
+M('C14', 'print-entries-reversed', QX,
+  "    dcontext = display_context.DisplayContext()", "    entries.reverse()\n    dcontext = display_context.DisplayContext()", ('R-PRINTFILTER', 'execute_print'))
+M('C14', 'shell-balances-handler-missing', SH,
+  "    def on_Balances(self, balance):", "    def on_Balance(self, balance):", ('R-EXHAUSTIVE', 'on_Balances'))
+T('C14', 'twin-template-reformatted', CO,
+  "      SELECT account, SUM({}(position))\n", "      SELECT account,  SUM({}(position))\n")
+
+# ---------------------------------------------------------------------- C15
+R('C15', 'regress-D10-pivot-none-group', 'a43200d-PIVOT-BY-on-a-non-aggregate-query-is-a-Compilation.diff', ('R-GUARDSAFE', '_compile_pivot_by'))
+R('C15', 'regress-D11-pivot-bound', 'd568a83-PIVOT-BY-references-are-validated-against-the-visi.diff', ('R-IDXBOUND', '_compile_pivot_by'))
+M('C15', 'pivot-second-grouped-guard-deleted', CO,
+  "        if group_indexes is None or indexes[1] not in group_indexes:\n            raise CompilationError('the second PIVOT BY column must be a GROUP BY column')\n", "",
+  ('R-GUARDS', 'pivot-grouped'))
+M('C15', 'pivot-index-not-shifted', CO,
+  "            if isinstance(column, int):\n                index = column - 1\n                if not 0 <= index < n_targets:\n                    raise CompilationError(f'invalid PIVOT BY column index {column}')",
+  "            if isinstance(column, int):\n                index = column\n                if not 0 <= index < n_targets:\n                    raise CompilationError(f'invalid PIVOT BY column index {column}')",
+  ('R-IDXBOUND', '_compile_pivot_by'))
+M('C15', 'pivot-block-offset-lost', QX,
+  "                index = keys.index(row[col2]) * nother + 1", "                index = keys.index(row[col2]) * nother", ('R-PIVOTSHAPE', 'execute_query'))
+M('C15', 'pivot-keys-unsorted', QX,
+  "        keys = sorted({row[col2] for row in rows})", "        keys = list({row[col2] for row in rows})", ('R-PIVOTSHAPE', 'execute_query'))
+M('C15', 'pivot-datatypes-not-repeated', QX,
+  "        datatypes = [columns[col1].datatype] + [col.datatype for col in other(columns)] * len(keys)",
+  "        datatypes = [columns[col1].datatype] + [col.datatype for col in other(columns)]", ('R-PIVOTSHAPE', 'execute_query'))
+M('C15', 'pivot-naming-switch-wrong', QX, "        if nother > 1:", "        if nother > 0:", ('R-PIVOTSHAPE', 'execute_query'))
+
+# ---------------------------------------------------------------------- C19
+R('C19', 'regress-D22-set-accepts-method-names', '8eb2b30--set-only-accepts-the-names-of-settings.diff', ('R-SETTINGS', 'do_set'))
+R('C19', 'regress-D23-quiet-option-unused', '40db2c4-the--q-----no-errors-option-suppresses-the-ledger-.diff', ('R-OPTUSED', 'main'))
+M('C19', 'setstr-stores-before-parsing', SH,
+  "        setattr(self, name, parse(value))", "        setattr(self, name, value)\n        setattr(self, name, parse(value))", ('R-SETTINGS', 'Settings.setstr'))
+M('C19', 'bool-parser-accepts-anything', SH,
+  "        raise ValueError(f'\"{value}\" is not a valid boolean')", "        return False", ('R-SETTINGS', 'Settings'))
+M('C19', 'setting-renamed-on-one-side', SH,
+  "    nullvalue: str = ''", "    nullstring: str = ''", ('R-SETTINGS', 'Settings.nullstring'))
+M('C19', 'format-option-not-passed', SH,
+  "    shell = BQLShell(filename, output, interactive, True, format, numberify, no_errors)", "    shell = BQLShell(filename, output, interactive, True, 'text', numberify, no_errors)",
+  ('R-OPTUSED', 'main'))
+M('C19', 'numberify-and-format-swapped', SH,
+  "    shell = BQLShell(filename, output, interactive, True, format, numberify, no_errors)", "    shell = BQLShell(filename, output, interactive, True, numberify, format, no_errors)",
+  ('R-OPTUSED', 'main'))
+M('C19', 'dot-command-falls-through-to-query', SH,
+  "        func = getattr(self, 'do_' + cmd, None)\n        if func is not None:\n            return func(arg)\n        self.error(f'unknown command \"{cmd}\"')",
+  "        func = getattr(self, 'do_' + cmd, None)\n        if func is not None:\n            return func(arg)\n        return self.execute(line)",
+  ('R-DISPATCH', 'onecmd'))
+M('C19', 'print-becomes-legacy-command', SH,
+  "{'clear', 'errors', 'exit', 'help', 'history', 'parse', 'quit', 'run', 'set'}", "{'clear', 'errors', 'exit', 'help', 'history', 'parse', 'print', 'quit', 'run', 'set'}",
+  ('R-DISPATCH', 'onecmd'))
+M('C19', 'numberify-setting-ignored', SH,
+  "        if self.settings.numberify:\n            desc, rows = numberify_results(desc, rows, dcontext.build())\n", "", ('R-DISPATCH', 'on_Select'))
+T('C19', 'twin-error-message-reworded', SH, "            self.error('invalid number of arguments')", "            self.error('invalid number of arguments')  # usage")
